@@ -125,7 +125,7 @@ def js(x):
 
 
 cases = []
-ncase = 22 if tier == "quick" else 220
+ncase = 22 if tier == "quick" else 70
 A1, A2, A3 = 2 * math.atan2(4, 3), 2 * math.atan2(3, 4), 2 * math.atan2(12, 5)     # Pythagorean angles (exactly representable)
 CORPUS = [
     # a condition on a LATER measurement combined with an earlier one (all branches of a two-level tree must be re-entered cleanly)
